@@ -220,25 +220,8 @@ ICMonotone ==   \* set inclusion along ancestor edges: n_t <= n_a, hence IC(a) <
 (* read off the cache variables - the invariants above say the two agree.  *)
 (* This is what replay compares the real Ontology with.                    *)
 
-LinkedTo(k, t) == {x \in DOMAIN rec[k] : DescSelf(parents, t) \cap rec[k][x].hpos # {}}
+LinkedTo(k, t) == LinkedPure(parents, rec[k], t)
 
-ProjTerm(t) ==
-  [ id       |-> t,
-    parents  |-> Sorted(parents[t]),
-    children |-> Sorted(ChildrenOf(parents, t)),
-    allp     |-> Sorted(Anc(parents, t)),
-    gene     |-> Sorted(LinkedTo("gene", t)),
-    omim     |-> Sorted(LinkedTo("omim", t)),
-    orpha    |-> Sorted(LinkedTo("orpha", t)) ]
-
-ProjRecs(k) ==
-  LET ids == Sorted(DOMAIN rec[k]) IN
-  [i \in 1..Len(ids) |-> [id |-> ids[i], name |-> rec[k][ids[i]].name, hpos |-> Sorted(rec[k][ids[i]].hpos)]]
-
-Proj ==
-  [ terms |-> [i \in 1..Len(arena) |-> ProjTerm(arena[i])],
-    gene  |-> ProjRecs("gene"),
-    omim  |-> ProjRecs("omim"),
-    orpha |-> ProjRecs("orpha") ]
+Proj == ProjPure(arena, parents, rec["gene"], rec["omim"], rec["orpha"])
 
 =============================================================================
